@@ -129,6 +129,16 @@ def run (ds : List Detector) (px : PkgMap) : RunOut :=
     | some e => ⟨[], s.status, some e, s.calls⟩
     | none => ⟨s.findings.filterMap id, s.status, none, s.calls⟩
 
+/-- `detector.Run` entered with the context possibly cancelled already (`cancelledAtEntry`): what `Scan` does
+when an earlier phase's last plugin cancelled the context without that phase noticing. `run = runFrom false`. -/
+def runFrom (cancelledAtEntry : Bool) (ds : List Detector) (px : PkgMap) : RunOut :=
+  let s := runLoop px ds { cancelled := cancelledAtEntry }
+  if s.ctxReturn then ⟨[], [], some .ctx, s.calls⟩
+  else
+    match validate s.findings [] with
+    | some e => ⟨[], s.status, some e, s.calls⟩
+    | none => ⟨s.findings.filterMap id, s.status, none, s.calls⟩
+
 /-! ### tail of `Scan` -/
 
 /-- what `filesystem.Run` and `standalone.Run` delivered -/
